@@ -201,6 +201,35 @@ pub fn check(case: &C18Case) -> CaseOutcome
             Exit::Code(_) => (),
             Exit::Timeout => (),
         }
+        // "finishes the file it is working on, stops": after the signal at most one more source
+        // file may be started (the one whose open was already under way)
+        {
+            let mut after_signal = false;
+            let mut started: Vec<&str> = Vec::new();
+            for t in &fr.run.trace
+            {
+                if t.kind == "SIGNAL"
+                {
+                    after_signal = true;
+                    continue;
+                }
+                if after_signal && t.kind == "open" && (t.flags & 3) == 0 && t.path.ends_with(".rs") && t.path.contains("/proj/src/")
+                {
+                    if !started.contains(&t.path.as_str())
+                    {
+                        started.push(t.path.as_str());
+                    }
+                }
+            }
+            if started.len() > 1
+            {
+                fail(
+                    &mut o,
+                    "continued-after-stop-request".into(),
+                    format!("{}: after the signal the run still started work on {} source files: {:?}", ctx, started.len(), started.iter().map(|p| p.rsplit('/').next().unwrap_or("")).collect::<Vec<_>>()),
+                );
+            }
+        }
         if !case.check_mode && case.tree.cache && updated > 0
         {
             let lock = fr.after.get("Breadlog.lock").map(|b| String::from_utf8_lossy(b).to_string());
@@ -260,7 +289,7 @@ pub fn run(env: &Env, rec: &Recorder) -> (String, Vec<&'static str>)
     pbt_opts(env, rec, "signals", env.cases(40, 1000), 30, &strategy, &check);
     rec.set_exhaustive(true);
     (
-        "trees of 2-8 source files (some needing insertions, some not), both modes, both styles, cache on/off, lock absent/consistent; a recording run gives the K counted operations; then for each of SIGTERM and SIGINT and EVERY boundary k in 1..=K+1 the signal is sent to the process immediately before operation k (LD_PRELOAD shim), each on a fresh copy. Oracle from the start of source discovery on: the process exits by itself; exit 0 only if nothing was left to do (edit: a following --check passes; check: no reference missing and the last file had been reached); every source file untouched or a complete update; with the cache on and >= 1 file updated a parsable lock with next > every ID inserted. Before discovery: the process may be killed but then nothing is modified. exhaustive=true: all boundaries of each generated tree. Non-trivial = distinct (tree, mode, signal, boundary) strictly between the first and last source-file operation on a tree with >= 2 files needing work".to_string(),
+        "trees of 2-8 source files (some needing insertions, some not), both modes, both styles, cache on/off, lock absent/consistent; a recording run gives the K counted operations; then for each of SIGTERM and SIGINT and EVERY boundary k in 1..=K+1 the signal is sent to the process immediately before operation k (LD_PRELOAD shim), each on a fresh copy. Oracle from the start of source discovery on: the process exits by itself; after the signal it starts work on at most one more source file; exit 0 only if nothing was left to do (edit: a following --check passes; check: no reference missing and the last file had been reached); every source file untouched or a complete update; with the cache on and >= 1 file updated a parsable lock with next > every ID inserted. Before discovery: the process may be killed but then nothing is modified. exhaustive=true: all boundaries of each generated tree. Non-trivial = distinct (tree, mode, signal, boundary) strictly between the first and last source-file operation on a tree with >= 2 files needing work".to_string(),
         vec!["signals are delivered synchronously at libc call boundaries (kill(getpid()) from the interposer); asynchronous delivery inside a system call is not enumerated", "the harness resets SIGINT/SIGTERM to SIG_DFL in the child so that an inherited SIG_IGN cannot mask a missing handler"],
     )
 }
